@@ -322,6 +322,22 @@ def _state_floors_si(cfg, descr_amp):
   return f
 
 
+def _rounding_floor_si(su, state_nd, ulps=512):
+  """Per leaf kind: ulps * eps * max|non-dimensional state entry| expressed in the SI unit of that leaf."""
+  import jax
+  leaves = [np.abs(np.asarray(a, dtype=np.float64)) for a in jax.tree_util.tree_leaves(state_nd)]
+  nd_max = max([float(a.max()) for a in leaves if a.size] + [1.0])
+  eps = float(np.finfo(np.float64).eps)
+  out = {}
+  for key, unit in STATE_UNITS.items():
+    try:
+      one = abs(float(np.asarray(su.specs.dimensionalize(1.0, su.u(unit)).magnitude)))
+    except Exception:   # pylint: disable=broad-except
+      continue
+    out[key] = ulps * eps * nd_max * one
+  return out
+
+
 def _amplitude(a):
   if a.size == 0:
     return 0.0
@@ -464,7 +480,8 @@ def run_steps(case):
         s = (s0, jax.tree_util.tree_map(lambda a, b: np.asarray(a) + np.asarray(b), s0, s2))
       inv, (final, frames) = fn(s, s0)
       res.append({'implicit_inverse': su.to_si(inv, 'state'), 'final state': su.to_si(final, 'state'),
-                  'trajectory frames': su.to_si(frames, 'state')})
+                  'trajectory frames': su.to_si(frames, 'state'),
+                  '_rounding_floor_si': _rounding_floor_si(su, s0)})
       states.append(s0)
     su.states = states
     results.append(res)
@@ -474,7 +491,14 @@ def run_steps(case):
     if not all(np.all(np.isfinite(v)) for r in (ra, rb) for v in r['final state'].values()):
       return Outcome(skipped=True)
     floors = _state_floors_si(cfg, float(inputs[i].get('amp', 1.0)))
+    # rounding floor of the coupled implicit solve: the numerically inverted block matrix mixes the fields with
+    # relative error ~eps of the *largest non-dimensional* entry of the state, whatever leaf it sits in; in SI this is
+    # eps * max|state_nd| * (SI value of one non-dimensional unit of the leaf), which depends on the scale by design
+    rf = {k: max(ra['_rounding_floor_si'][k], rb['_rounding_floor_si'][k]) for k in ra['_rounding_floor_si']}
+    floors = {k: max(v, rf.get(k, 0.0) / RTOL_STEPS) for k, v in floors.items()}
     for name in ra:
+      if name.startswith('_'):
+        continue
       bad = _compare(out, ra[name], rb[name], f'{name} (converted to SI) differs between the two scales', floors, RTOL_STEPS,
                      input=i, scales=cfg['scales'], target=cfg['target'], integrator=cfg['integrator'],
                      filters=cfg.get('filters'))
